@@ -12,7 +12,7 @@ AUTH_FAULTS = [
     "A.expected-origin-trailing-slash", "A.expected-origin-surrounding-space",
     "A.expected-origin-ipv6-literal-read-as-glob", "A.expected-origin-star-read-as-glob", "A.origin-unparsable-port",
     "A.origin-unbalanced-bracket", "A.origin-fullwidth-solidus",
-    "A.origin-other-but-toporigin-expected",
+    "A.origin-other-but-toporigin-expected", "A.origin-other-with-lone-surrogate", "A.type-other-with-lone-surrogate",
     "A.cdj-undecodable-byte-in-origin", "A.cdj-undecodable-byte-in-type", "A.rpid-hash-of-idna-form", "A.rpid-hash-of-lowercase",
     "A.rpid-other", "A.rpid-uppercase", "A.up-clear", "A.uv-clear-required",
     "A.id-other-credential", "A.id-padded", "A.id-std-alphabet", "A.cred-type",
@@ -140,6 +140,11 @@ def build_assertion(cred, *, rp_id="example.com", challenge=b"\x01" * 32, origin
     if "A.ctr-zero-vs-pos" in faults:
         stored = max(stored, 1)
         counter = 0
+    # a wrong value that is valid JSON (pure ASCII on the wire) but decodes to text with an isolated surrogate
+    if "A.origin-other-with-lone-surrogate" in faults:
+        cd_origin = origin + "\ud83d"
+    if "A.type-other-with-lone-surrogate" in faults:
+        typ = typ + "\udc00"
     if "A.origin-other-but-toporigin-expected" in faults:
         # an embedded (cross-origin) ceremony: the caller's origin is the attacker's, the page around it is the RP's.
         # `origin` is what the RP must compare; `topOrigin` is information
